@@ -89,20 +89,37 @@ class H3Shim:
         self.pick = 0
         self.calls = 0
         self.last = None
+        self.link = None
+        self._lines = {}
 
     def __getattr__(self, name):
         return getattr(_h3, name)
+
+    def _auto_candidates(self):
+        """cells on the link being traversed: one after the start, the middle, the end"""
+        link = self.link
+        if link is None:
+            return ()
+        key = (link.start, link.end)
+        c = self._lines.get(key)
+        if c is None:
+            with boot.no_tracing():
+                line = _h3.h3_line(link.start, link.end)
+                c = (line[min(1, len(line) - 1)], line[len(line) // 2], line[-1])
+            self._lines[key] = c
+        return c
 
     def geo_to_h3(self, lat, lon, res):
         if not (boot.is_symbolic(lat) or boot.is_symbolic(lon)):
             return _h3.geo_to_h3(lat, lon, res)
         self.calls += 1
         self.last = (lat, lon)
+        cands = self.candidates if self.candidates else self._auto_candidates()
         p = self.pick
-        for i in range(len(self.candidates)):
+        for i in range(len(cands)):
             if p == i:
-                return self.candidates[i]
-        return self.candidates[-1]
+                return cands[i]
+        return cands[-1]
 
 
 NP_SHIM = NpShim()
@@ -121,8 +138,15 @@ def install_np_shim():
 def install_h3_shim():
     from nrel.hive.util import h3_ops
 
-    if boot.SYMBOLIC:
+    if boot.SYMBOLIC and h3_ops.h3 is not H3_SHIM:
         h3_ops.h3 = H3_SHIM
+        real_pal = h3_ops.H3Ops.point_along_link.__func__
+
+        def point_along_link(cls, link, available_time_seconds):
+            H3_SHIM.link = link  # the real code below runs unchanged; the shim only learns which link is split
+            return real_pal(cls, link, available_time_seconds)
+
+        h3_ops.H3Ops.point_along_link = classmethod(point_along_link)
 
 
 class SymTime:
@@ -186,6 +210,13 @@ class SymTime:
     def as_iso_time(self):
         return "<symtime>"
 
+    def __format__(self, spec):
+        return "<symtime>"
+
+    def __ch_deep_realize__(self, memo):
+        # formatting (f-strings in log / error messages) must not realise the clock value
+        return self
+
     def as_epoch_time(self):
         return self.t
 
@@ -219,6 +250,12 @@ class SymTod:
     def __hash__(self):
         return 0
 
+    def __format__(self, spec):
+        return "<symtod>"
+
+    def __ch_deep_realize__(self, memo):
+        return self
+
 
 class SymDelta:
     """stand-in for datetime.timedelta carrying (symbolic) seconds"""
@@ -230,6 +267,18 @@ class SymDelta:
 
     def total_seconds(self):
         return self.sec
+
+    def __eq__(self, o):
+        return isinstance(o, SymDelta) and self.sec == o.sec
+
+    def __hash__(self):
+        return 0
+
+    def __format__(self, spec):
+        return "<symdelta>"
+
+    def __ch_deep_realize__(self, memo):
+        return self
 
     def __str__(self):
         return "<symdelta>"
